@@ -32,6 +32,9 @@ class AssertViolated(BaseException):
 # ------------------------------------------------------------------------------------------------
 
 
+MAX_DEPTH = 4000
+
+
 class Space:
     cur = None
     fork_hook = None  # optional callable(cond) for the parametricity guard
@@ -117,6 +120,8 @@ class Space:
         if Space.fork_hook is not None:
             Space.fork_hook(self, cond)
         depth = len(self.trace)
+        if depth > MAX_DEPTH:
+            raise Inconclusive("path deeper than %d decisions (non-terminating loop?)" % MAX_DEPTH)
         if depth < len(self.prefix):
             d, payload, mdl = self.prefix[depth]
             self.trace.append([d, False, payload, None])
@@ -209,12 +214,14 @@ class PathResult:
         self.decisions = [bool(t[0]) for t in space.trace]
 
 
-def explore(fn, on_path, timeout_ms=30000, max_paths=200000, deadline=None, seed=0):
+def explore(fn, on_path, timeout_ms=30000, max_paths=200000, deadline=None, seed=0, stats=None):
     """Run fn(space) once per feasible path, depth first.  fn returns a polymorphic Bool `ok`
     (True / SBool / z3 Bool).  on_path(PathResult) is called for every finished path and returns
     True to stop the exploration.  Returns aggregate statistics."""
     stack = []  # [decision, other_pending, payload, other_model]
-    stats = dict(paths=0, aborted=0, queries=0, solver_s=0.0, cex=0, exceptions=0, unsupported=0,
+    if stats is None:
+        stats = {}
+    stats.update(paths=0, aborted=0, queries=0, solver_s=0.0, cex=0, exceptions=0, unsupported=0,
                  truncated=False, witnesses=set(), nontrivial=0, max_depth=0)
     first = True
     while first or stack:
